@@ -267,6 +267,16 @@ def byCallOf (ag : Adapt.Graph) (c : Nat) (p : Option Nat × Event) : Bool :=
   | some j => (match ag.apps[j]? with | some a => Adapt.isCallOf c a | none => false)
   | none => false
 
+/-- Is application `j` a call whose function operand is (directly) tracer `c`? -/
+def callsTracer (ag : Adapt.Graph) (c : Nat) (j : Nat) : Bool :=
+  match ag.apps[j]? with
+  | some a => Adapt.isCallOf c a
+  | none => false
+
+/-- C15 premise (decidable; `adaptOK` does not ask for it): every call of tracer `c` is reachable from the graph output. -/
+def callsReachable (ag : Adapt.Graph) (fg : Factory.Graph) (c : Nat) : Bool :=
+  (List.range ag.apps.length).all (fun j => !callsTracer ag c j || (Factory.reachable fg).contains j)
+
 /-- Head and arguments of a call term `f(a…, k=v…)`. -/
 def callParts : E → Option (E × List E)
   | .node .call (.cons f rest) => some (f, rest.toList)
